@@ -181,7 +181,7 @@ def expand(sid: str | Sid, do_extrapolate: bool = False) -> List[Sid]:
             debug('.. Type "{}" is not a leaf, and do_extrapolate is False, skipped.'.format(key))
             continue
 
-    return sorted(list(set(result)))
+    return sorted(dict.fromkeys(result))  # unique, in a stable order (a set would order equal strings by hash)
 
 
 @cache
@@ -221,7 +221,7 @@ def simple_typing(sid: str | Sid) -> List[Sid]:
         debug("appending: {}".format(new_sid.uri))
         result.append(new_sid)
 
-    return list(set(result)) or [Sid(sid)]
+    return list(dict.fromkeys(result)) or [Sid(sid)]  # unique, in template order (not in hash order)
 
 
 if __name__ == "__main__":
